@@ -11,7 +11,7 @@ register(Harness("c42_sweep", "C42", lambda P: reharness.make_sweep(P, oracles.c
                  {"quick": dict(shards=16, budget_s=300, per_path_s=30), "thorough": dict(shards=32, budget_s=3000, per_path_s=30)},
                  goals=["paused", "resumed", "interrupted"], functions=_fns, mode="schedule", symbolic=SYM, out_of_bound=OUT,
                  stubs=STUBS + ["recording tracer bound to bluesky.run_engine.tracer (start_span -> object with set_attribute/end)"], require_exhaustive=True))
-register(Harness("c42_faults", "C42", lambda P: reharness.make_sweep(P, oracles.c42_spans, plans=["interleaved", "scan2"] if P["tier"] == "quick" else PLANS_T,
+register(Harness("c42_faults", "C42", lambda P: reharness.make_sweep(P, oracles.c42_spans, plans=["interleaved", "scan2", "retry_close"] if P["tier"] == "quick" else PLANS_T + ["retry_close"],
                                                                       kinds=["pause"], decisions=["resume"], faults=True, extra=dict(setup=oracles.install_tracer)),
                  {"quick": dict(shards=16, budget_s=300, per_path_s=30), "thorough": dict(shards=48, budget_s=3000, per_path_s=30)},
                  goals=["device-failure-surfaced"], functions=_fns, mode="schedule", symbolic=SYM, out_of_bound=OUT, stubs=STUBS, require_exhaustive=True))
